@@ -102,7 +102,7 @@ def _pct(rng, n):
 
 
 def gen_cases(run):
-    n = run.n(12000, 1600000)
+    n = run.n(36000, 1600000)
     rng = run.rng
     for i in range(n):
         k = KINDS[i % len(KINDS)] if i < 4 * len(KINDS) else rng.choice(KINDS)
